@@ -13,7 +13,7 @@ import itertools
 
 import numpy as np
 
-from ..engine import post, check_function, source_info
+from ..engine import ContractShape, post, check_function, source_info
 from ..harness import lp, socp, gcp, ro, rsome, arr, sym_array
 from ..spec import views
 from ..sym import SymReal, p_and, p_eq, p_implies, p_le
@@ -276,9 +276,10 @@ def tower_callsites():
     def make(kind):
         def setup(c):
             m = ro.Model()
-            x = m.dvar(2)
-            a = sym_array(c, (2,), "ina")
-            b = sym_array(c, (2,), "inb")
+            n = 3 if kind.startswith("gmean[") else 2
+            x = m.dvar(n)
+            a = sym_array(c, (n,), "ina")
+            b = sym_array(c, (n,), "inb")
             for v in a:
                 c.assume(v != 0)
             e = a * x + b
@@ -301,6 +302,11 @@ def tower_callsites():
                 con, beta, scaled = k * rsome.power(e, np.array([1, 3])) <= t, [1, 2], False
             elif kind == "power-mixed[(5,2),(2,2)]":
                 con, beta, scaled = k * rsome.power(e, np.array([5, 2]), np.array([2, 2])) <= t, [2, 3], False
+            elif kind == "gmean[2,3,4]":
+                # weights whose extremes share a factor that the middle one does not have
+                con, beta, scaled = k * rsome.gmean(e, [2, 3, 4]) >= t, [2, 3, 4], False
+            elif kind == "gmean[6,4,9]":
+                con, beta, scaled = k * rsome.gmean(e, [6, 4, 9]) >= t, [6, 4, 9], False
             else:
                 con, beta, scaled = k * rsome.gmean(e, [1, 2]) >= t, [1, 2], False
             m.st(con)
@@ -331,7 +337,7 @@ def tower_callsites():
         terms = []
         if kind.startswith("power-mixed"):
             if len(calls) != 1:
-                return False
+                raise ContractShape(f"{len(calls)} IPCone calls where this call-site contract expects one per non-trivial entry")
             j = 1 if kind == "power-mixed[1,3]" else 0
             xx, rr, bb = calls[0]
             if bb != ns["beta"] or rr.size != 2:
@@ -340,7 +346,7 @@ def tower_callsites():
             _single_col(rr[0], "right0"), _single_col(rr[1], "right1")
         elif kind.startswith("pnorm") or kind.startswith("power"):
             if len(calls) != 2:
-                return False
+                raise ContractShape(f"{len(calls)} IPCone calls where this call-site contract expects one per entry")
             for j, (xx, rr, bb) in enumerate(calls):
                 if bb != ns["beta"] or rr.size != 2:
                     return False
@@ -356,13 +362,15 @@ def tower_callsites():
                     return False
         else:
             if len(calls) != 1:
-                return False
+                raise ContractShape(f"{len(calls)} IPCone calls where this call-site contract expects one")
             xx, rr, bb = calls[0]
-            if bb != ns["beta"] or rr.size != 2:
+            nn = len(ns["beta"])
+            if [int(v) for v in bb] != ns["beta"] or rr.size != nn:
                 return False
             _single_col(xx.to_affine(), "gmean head")
             rv = views.flat(views.val(rr, X))
-            terms += [p_eq(rv[0], vin[0]), p_eq(rv[1], vin[1])]
+            vin = [ns["a"][j] * X[xs.first + j] + ns["b"][j] for j in range(nn)]
+            terms += [p_eq(rv[j], vin[j]) for j in range(nn)]
         return p_and(*terms)
 
     def rows(ns, F):
@@ -397,7 +405,7 @@ def tower_callsites():
         # k*gmean(in) >= t  is carried by  t <= -k*head  (the head ranges over [-gmean, gmean])
         return p_implies(feas, p_le(tv, -k * head))
 
-    for kind in ("pnorm3", "pnorm(5,2)", "power3", "power(5,2)", "power-mixed[1,3]", "power-mixed[(5,2),(2,2)]", "gmean"):
+    for kind in ("pnorm3", "pnorm(5,2)", "power3", "power(5,2)", "power-mixed[1,3]", "power-mixed[(5,2),(2,2)]", "gmean", "gmean[2,3,4]", "gmean[6,4,9]"):
         obs, _ = check_function("rsome.socp:Model.do_math(primal)", make(kind), lambda ns: ns["F"],
                                 [post("tower-operands-are-the-scaled-argument-and-fresh-auxiliaries-with-documented-weights", operands),
                                  post("linear-rows-tie-the-tower-to-the-constraint-as-written", rows)],
